@@ -61,7 +61,7 @@ def run(ctx, rep):
         rep.check(cls != 'UNCLASSIFIED', 'R-C12-1', '%s:%s' % (base(f.name), c.callee), c.loc(),
                   'class %s' % cls if cls != 'UNCLASSIFIED' else 'write-capable call %s(%s) in %s is not a classified effect primitive' % (c.callee, ', '.join(f.expr(o)[:40] for o in c.ops[:2]), f.name),
                   function=base(f.name), construct='unclassified %s' % c.callee)
-    seen_sites = {(base(f.name), c.callee) for f, c, cls in sites}
+    seen_sites = {(base(f.name), c.callee) for f, c, cls in sites} | {(effects.site_owner(P, f, 'open' if c.callee in effects.OPEN_CALLS else c.callee), c.callee) for f, c, cls in sites}
     for k in effects.SITES:
         if k not in seen_sites:
             raise AnalysisBroken('effect primitive site %s:%s no longer exists (table out of date)' % k)
